@@ -490,6 +490,11 @@ func ruleC15Client(c *Ctx) {
 		} else {
 			c.Undecided(rule, FnName(fn)+" | TypeError", "", "constant rpc.TypeError not found")
 		}
+		// a TypeEOF reply is a short read: it is handed up as io.EOF, never as a clean success
+		// (replicator.ReadAt takes err == nil for "buffer fully served" and ignores the count)
+		if te, ok := c.P.pkgIntConst("rpc", "TypeEOF"); ok {
+			c.Guard(rule, fn, nilErrorReturns(fn), "report success", nil, atom("reply is not an EOF reply", fmt.Sprintf("+var(rpc.Message).Type -%d !=0", te)))
+		}
 		if len(sels) == 1 {
 			sel := sels[0].(*ssa.Select)
 			hasDeadline, hasComplete := false, false
